@@ -25,6 +25,8 @@ Table(routine) ==
 Routines == {"gssv", "gssvx", "gsisx", "gstrs", "gsrfs", "gscon", "gsequ", "trsv"}
 \* preconditions that only exist when pre-computed factors are supplied
 NeedsFactored == {"equed", "R.nonpos", "C.nonpos"}
+\* R is an input only when equed = R or B, C only when equed = C or B ("not accessed" otherwise)
+EffectiveEq(corrs, eq) == (corrs \ (IF eq \in {"R", "B"} THEN {} ELSE {"R.nonpos"})) \ (IF eq \in {"C", "B"} THEN {} ELSE {"C.nonpos"})
 AllCorr(routine) == UNION {Table(routine)[i][2] : i \in 1..Len(Table(routine))}
 
 Screen(routine, corrs) ==
